@@ -256,6 +256,7 @@ def run_case(
         except asyncio.CancelledError as e:  # a BaseException escaping run(): an observation, not a harness failure
             obs = {"status": "failed", "values": [], "error": "base:" + type(e).__name__, "raised": True, "pause": None}
     obs["warnings"] = sum(1 for w in (wlist or []) if "Requested outputs not found" in str(w.message))
+    obs["missing_warnings"] = sorted(str(w.message).split(". Available")[0] for w in (wlist or []) if "Requested outputs not found" in str(w.message))
     obs["calls"] = [[fid, [[k, enc_val(v)] for k, v in kw.items()]] for fid, kw in env.log[start_log:]]
     if rec is not None:
         obs["events"] = [canon_event(e) for e in rec.events]
@@ -373,8 +374,8 @@ def map_case(
     if rec is not None:
         kwargs["event_processors"] = [rec]
     obs: dict[str, Any] = {"status": "ok"}
-    with warnings.catch_warnings():
-        warnings.simplefilter("ignore")
+    with warnings.catch_warnings(record=True) as wlist:
+        warnings.simplefilter("always")
         try:
             if runner == "sync":
                 results = SyncRunner().map(g, vals, **kwargs)
@@ -401,6 +402,7 @@ def map_case(
         except asyncio.CancelledError as e:
             obs["results"] = []
             obs["raised"] = "base:" + type(e).__name__
+    obs["missing_warnings"] = sorted(str(w.message).split(". Available")[0] for w in (wlist or []) if "Requested outputs not found" in str(w.message))
     obs["calls"] = [[fid, [[k, enc_val(v)] for k, v in kw.items()]] for fid, kw in env.log]
     if rec is not None:
         obs["events"] = [canon_event(e) for e in rec.events]
